@@ -1,12 +1,13 @@
 #!/usr/bin/env python3-vt
-"""usage: seed2_try.py Cxx [checks...]  - run checks (default: all 20) against every /tmp/seed2/Cxx/_seed/patchN.diff on scratch copies"""
+"""usage: [SEED_ROOT=/tmp/seed3] [VERIF_SNAPSHOT=<copy of /verif>] seed2_try.py Cxx [checks...]  - run checks (default: all 20) against every
+$SEED_ROOT/Cxx/_seed/patchN.diff (default root /tmp/seed2) on scratch copies"""
 import sys, glob, os
-sys.path.insert(0, "/verif")
+sys.path.insert(0, os.environ.get("VERIF_SNAPSHOT", "/verif"))
 from concurrent.futures import ThreadPoolExecutor
 from pgverif import selftest
 prop = sys.argv[1]
 checks = sys.argv[2:] or [f"C{i:02d}" for i in range(1, 21)]
-patches = sorted(glob.glob(f"/tmp/seed2/{prop}/_seed/patch[0-9].diff"))
+patches = sorted(glob.glob(f"{os.environ.get('SEED_ROOT', '/tmp/seed2')}/{prop}/_seed/patch[0-9].diff"))
 jobs = [(p, c) for p in patches for c in checks]
 def run(j):
     p, c = j
